@@ -60,9 +60,9 @@ theorem markL_finv {st : VCState} (v : Nat) (nm : Bool) (act : Nat)
   have hvcv : oget (st.vc.setIfInBounds v (some act)) v = some act := by
     rw [oget_set]; simp [hv]
   refine ⟨⟨?_, ?_, ?_⟩, hvcv⟩
-  · simp only [markL, Array.size_setIfInBounds]; exact hF.size_vv
+  · simp only [markL_eq, Array.size_setIfInBounds]; exact hF.size_vv
   · intro c hc
-    simp only [markL] at hc ⊢
+    simp only [markL_eq] at hc ⊢
     rw [bget_set] at hc
     -- the label of `c` afterwards
     by_cases hlv : vget (if nm = true then st.ctv.setIfInBounds act v else st.ctv) c = v
@@ -101,7 +101,7 @@ theorem markL_finv {st : VCState} (v : Nat) (nm : Bool) (act : Nat)
       rw [hold.2]
       exact hF.reach c hold.1
   · intro c hc
-    simp only [markL] at hc ⊢
+    simp only [markL_eq] at hc ⊢
     rw [bget_set] at hc
     by_cases hlv : vget (if nm = true then st.ctv.setIfInBounds act v else st.ctv) c = v
     · rw [hlv]; exact hvv
@@ -161,9 +161,9 @@ theorem markR_finv {st : VCState} (v : Nat) (nm : Bool) (act : Nat)
       | false => rfl
       | true => simp only [if_true]; rw [vget_set]; simp [hca]
   refine ⟨?_, ?_, ?_⟩
-  · simp only [markR]; exact hF.size_vv
+  · simp only [markR_eq]; exact hF.size_vv
   · intro c hc
-    simp only [markR] at hc ⊢
+    simp only [markR_eq] at hc ⊢
     by_cases hlv : vget (if nm = true then st.ctv.setIfInBounds act v else st.ctv) c = v
     · rw [hlv]
       by_cases hca : act = c
@@ -179,7 +179,7 @@ theorem markR_finv {st : VCState} (v : Nat) (nm : Bool) (act : Nat)
     · obtain ⟨h1, h2⟩ := hold c hc hlv
       rw [h2]; exact hF.reach c h1
   · intro c hc
-    simp only [markR] at hc ⊢
+    simp only [markR_eq] at hc ⊢
     by_cases hlv : vget (if nm = true then st.ctv.setIfInBounds act v else st.ctv) c = v
     · rw [hlv]; exact hvv
     · obtain ⟨h1, h2⟩ := hold c hc hlv
@@ -188,12 +188,12 @@ theorem markR_finv {st : VCState} (v : Nat) (nm : Bool) (act : Nat)
 theorem markL_simple (v : Nat) (nm : Bool) (st : VCState) (act : Nat) :
     (markL v nm st act).visitedV = st.visitedV ∧ (markL v nm st act).parents = st.parents ∧
     (markL v nm st act).vc.size = st.vc.size := by
-  simp [markL, Array.size_setIfInBounds]
+  simp [markL_eq, Array.size_setIfInBounds]
 
 theorem markR_simple (v : Nat) (nm : Bool) (st : VCState) (act : Nat) :
     (markR v nm st act).visitedV = st.visitedV ∧ (markR v nm st act).parents = st.parents ∧
     (markR v nm st act).vc = st.vc := by
-  simp [markR]
+  simp [markR_eq]
 
 theorem cvcLeft_finv (hn : ctv0.size = 3 * k) (hopp : OppOK ctv0 ctv0.size opp)
     (c v : Nat) (nm : Bool) (p : Nat) (hnmp : nm = false → v = p) :
@@ -414,10 +414,10 @@ theorem bget_set_true_mono (a : Array Bool) (i c : Nat) (h : a.getD c false = tr
   · exact h
 
 theorem markL_visLe (v : Nat) (nm : Bool) (st : VCState) (act : Nat) : VisLe st (markL v nm st act) :=
-  fun c h => by simp only [markL]; exact bget_set_true_mono _ _ _ h
+  fun c h => by simp only [markL_eq]; exact bget_set_true_mono _ _ _ h
 
 theorem markR_visLe (v : Nat) (nm : Bool) (st : VCState) (act : Nat) : VisLe st (markR v nm st act) :=
-  fun c h => by simp only [markR]; exact bget_set_true_mono _ _ _ h
+  fun c h => by simp only [markR_eq]; exact bget_set_true_mono _ _ _ h
 
 theorem cvcLeft_visLe (opp : Array (Option Nat)) (c v : Nat) (nm : Bool) :
     ∀ (fuel act : Nat) (st : VCState), VisLe st (cvcLeft opp c v nm fuel act st).1 ∧
@@ -428,7 +428,7 @@ theorem cvcLeft_visLe (opp : Array (Option Nat)) (c v : Nat) (nm : Bool) :
   | succ fuel ih =>
     intro act st
     have hm : act < st.visitedC.size → (markL v nm st act).visitedC.getD act false = true := by
-      intro h; simp only [markL]; rw [bget_set]; simp [h]
+      intro h; simp only [markL_eq]; rw [bget_set]; simp [h]
     unfold cvcLeft
     simp only []
     split
